@@ -728,6 +728,13 @@ func checkGroupRemovedOnlyWhenEmpty(c *engine.Ctx, rule string) {
 			if call, ok := in.(ssa.CallInstruction); ok {
 				if cf := engine.CalleeFn(call); cf != nil && cf.Blocks != nil {
 					callers[cf] = append(callers[cf], f)
+				} else if call.Common().IsInvoke() {
+					// through an interface this module declares for exactly one implementation
+					if m := call.Common().Method; m != nil && m.Pkg() != nil && engine.IsRepoPkg(m.Pkg().Path()) {
+						if impls := p.Implementations(m); len(impls) == 1 {
+							callers[impls[0]] = append(callers[impls[0]], f)
+						}
+					}
 				}
 			}
 		})
